@@ -76,17 +76,19 @@ func renderKeys(ks []pkKey) string {
 // leaves lists the int cells of a package in a fixed order: (member, key path)
 type pkLeaf struct {
 	expr string // expression valid INSIDE the package
+	dot  string // the same cell as a dot path used as an operand of a builtin, also valid inside the package
 	cell *int64
 }
 
-func keyLeaves(base string, ks []pkKey, out *[]pkLeaf) {
+func keyLeaves(base string, dotBase string, ks []pkKey, out *[]pkLeaf) {
 	for i := range ks {
 		k := &ks[i]
 		e := "(hget " + base + " " + k.Name + ":)"
+		d := dotBase + "." + k.Name
 		if k.Hash {
-			keyLeaves(e, k.Sub, out)
+			keyLeaves(e, d, k.Sub, out)
 		} else {
-			*out = append(*out, pkLeaf{expr: e, cell: &k.I})
+			*out = append(*out, pkLeaf{expr: e, dot: "(+ 0 " + d + ")", cell: &k.I})
 		}
 	}
 }
@@ -97,9 +99,9 @@ func (n *pkNode) leaves() []pkLeaf {
 		m := &n.Members[i]
 		switch m.Kind {
 		case "val":
-			out = append(out, pkLeaf{expr: m.Name, cell: &m.I})
+			out = append(out, pkLeaf{expr: m.Name, dot: "(+ 0 " + m.Name + ")", cell: &m.I})
 		case "hash":
-			keyLeaves(m.Name, m.Keys, &out)
+			keyLeaves(m.Name, m.Name, m.Keys, &out)
 		}
 	}
 	return out
@@ -128,6 +130,12 @@ func (n *pkNode) render() string {
 	b.WriteString(" (defn Dump [] (list 0")
 	for _, l := range n.leaves() {
 		b.WriteString(" " + l.expr)
+	}
+	b.WriteString("))")
+	// the same view through dot paths into the package's own (mostly private) hashes, used as builtin operands
+	b.WriteString(" (defn DumpDot [] (list 0")
+	for _, l := range n.leaves() {
+		b.WriteString(" " + l.dot)
 	}
 	b.WriteString(")))")
 	return b.String()
@@ -327,20 +335,25 @@ func checkPackages(c pkCase) *ev.Failure {
 			if bad != nil {
 				return
 			}
-			call := "(pk." + strings.Join(append(append([]string{}, path...), "Dump"), ".") + ")"
-			r := evalString(env, call+"\n", 100000)
-			want := "(0"
-			for _, l := range p.leaves() {
-				want += fmt.Sprintf(" %d", *l.cell)
-			}
-			want += ")"
-			if r.Err != nil || r.Panic != "" {
-				bad = &ev.Failure{Sig: "inside-access:" + sig, Msg: step + "\nthen the exported function " + call + ", which reads the package's own members, fails", Expected: want, Observed: fmt.Sprint(r.Err, r.Panic)}
-				return
-			}
-			got, _ := printSexp(r.Val)
-			if got != want {
-				bad = &ev.Failure{Sig: "state:" + sig, Msg: step + "\nthen " + call + " (the package's own view of its members) differs from the model", Expected: want, Observed: got}
+			for _, dumpFn := range []string{"Dump", "DumpDot"} {
+				if bad != nil {
+					return
+				}
+				call := "(pk." + strings.Join(append(append([]string{}, path...), dumpFn), ".") + ")"
+				r := evalString(env, call+"\n", 100000)
+				want := "(0"
+				for _, l := range p.leaves() {
+					want += fmt.Sprintf(" %d", *l.cell)
+				}
+				want += ")"
+				if r.Err != nil || r.Panic != "" {
+					bad = &ev.Failure{Sig: "inside-access:" + sig, Msg: step + "\nthen the exported function " + call + ", which reads the package's own members, fails", Expected: want, Observed: fmt.Sprint(r.Err, r.Panic)}
+					return
+				}
+				got, _ := printSexp(r.Val)
+				if got != want {
+					bad = &ev.Failure{Sig: "state:" + sig, Msg: step + "\nthen " + call + " (the package's own view of its members) differs from the model", Expected: want, Observed: got}
+				}
 			}
 		})
 		return bad
@@ -591,7 +604,7 @@ func genPkCase(t *rapid.T) (pkCase, []string, bool) {
 func TestC18(t *testing.T) {
 	p := begin(t, "C18")
 	r := p.r
-	r.SetRule("case = a generated tree of packages (nesting depth <=3; packages stored under capitalised and lower-case names) whose members are values, functions that use a (mostly private) value of their package, hashes with nested hashes, and nested packages, under names with upper-case (ASCII and non-ASCII), lower-case and non-letter first runes; followed by 2-10 accesses from outside along random paths to a value, function or hash key: reads as operand of a builtin, calls through the dot path, reads on the right-hand side of def / set / infix :=, assignments by infix =, (set ..), prefix (= ..), each also through an alias bound to the package value (def, let, function parameter), through a name bound to the dot path of a nested package, and through a package stored in an outside hash. Oracle: visibility model (every hop naming a non-package member must be capitalised; packages are traversed under any name; non-letter names and lower-case KEYS inside an exported hash: either) -> allowed accesses must succeed with the model's value, denied ones must fail; after EVERY access every package's exported Dump function (defined inside, reads all private members) must return the model's state. Non-trivial: >=1 allowed and >=1 denied access, and depth >=2 or an alias route. Distinct by program text.")
+	r.SetRule("case = a generated tree of packages (nesting depth <=3; packages stored under capitalised and lower-case names) whose members are values, functions that use a (mostly private) value of their package, hashes with nested hashes, and nested packages, under names with upper-case (ASCII and non-ASCII), lower-case and non-letter first runes; followed by 2-10 accesses from outside along random paths to a value, function or hash key: reads as operand of a builtin, calls through the dot path, reads on the right-hand side of def / set / infix :=, assignments by infix =, (set ..), prefix (= ..), each also through an alias bound to the package value (def, let, function parameter), through a name bound to the dot path of a nested package, and through a package stored in an outside hash. Oracle: visibility model (every hop naming a non-package member must be capitalised; packages are traversed under any name; non-letter names and lower-case KEYS inside an exported hash: either) -> allowed accesses must succeed with the model's value, denied ones must fail; after EVERY access every package's exported Dump and DumpDot functions (defined inside; they read all private members, Dump through hget, DumpDot through dot paths used as builtin operands) must return the model's state. Non-trivial: >=1 allowed and >=1 denied access, and depth >=2 or an alias route. Distinct by program text.")
 	r.Assume("keys inside an exported hash are data: capitalised keys must be readable; for lower-case keys either outcome is accepted", "names whose first rune is not a letter: either outcome is accepted", "a bare dot path evaluates to a symbol that is resolved on use, so every read is observed through a use ((+ 0 path))")
 	p.rapidSub("program", ev.Scale(2000, 300000), func(t *rapid.T) {
 		c, labels, nt := genPkCase(t)
